@@ -684,6 +684,10 @@ def _touch(s, save=True):
     for _ in s.slices1d() if len(s.shape) > 1 else ():
         pass
     s.to_array(dtype=int)
+    try:
+        s.to_array()
+    except Exception:  # noqa
+        pass
     s.abscissae
     s.sparsity
     s.to_dict(force=True)
@@ -721,6 +725,12 @@ def _reobserve(s, exp, opd, ctx, opname, old_cube=None, save=True):
             ctx.v(P, opname + ":stale:cube-built-before", opd, "the count cube built before the change gives %r afterwards, expected %r" % (got.tolist(), want.tolist()))
     if s.to_array(dtype=int).tolist() != exp.tolist():
         ctx.v(P, opname + ":stale:to_array", opd, "to_array after the change = %r, expected %r" % (s.to_array(dtype=int).tolist(), exp.tolist()))
+    try:
+        plain = s.to_array().tolist()      # the default conversion (library-chosen dtype) is a reader of its own
+    except Exception as e:  # noqa
+        plain = repr(e)
+    if plain != exp.tolist():
+        ctx.v(P, opname + ":stale:to_array", opd, "to_array() with the default dtype after the change = %r, expected %r" % (plain, exp.tolist()))
     if len(shape) > 1:
         for coords, sl in s.slices1d():
             got = M.read_dense(sl).tolist()
